@@ -139,6 +139,7 @@ def run_c11(tier):
     os.remove(outp)
     if tier == "thorough":
         miri(res)
+    native_driver(res)
     res.cov["exhaustive"] = True
     res.assumptions += [
         "TLA+ cannot see memory: each unsafe block's precondition is a state invariant of the model (value entries sign-positive, no zero run at transmute, zero counts >= 1, referent never moves) and the replay compares the real entries / results after every enumerated op sequence and lifecycle",
@@ -146,6 +147,22 @@ def run_c11(tier):
         "Miri (tree borrows) runs only in the thorough tier, as an observer",
     ]
     return res.finish()
+
+
+def native_driver(res):
+    """the Miri driver, run natively: release (results) and dev profile (debug assertions: the standard library checks the
+    preconditions of `new_unchecked`, `get_unchecked`, ... and aborts)"""
+    scen = os.path.join(common.OUT, "miri_native_%d.ndjson" % os.getpid())
+    common.run_harness(common.build_harness(""), ["miri-scenarios", scen])
+    for profile in ("release", "dev"):
+        binp = common.build_harness("", profile)
+        p = common.run_harness(binp, ["miri-run", scen], check=False, env={"VERIF_THREADS": "1"})
+        if p.returncode != 0:
+            res.violation("unsafe-code driver fails natively (%s profile, exit %d): %s" % (profile, p.returncode, (p.stdout or "")[-1500:]),
+                          {"kind": "miri", "profile": profile, "output": (p.stdout or "")[-4000:]})
+        else:
+            res.cov["native_driver_" + profile] = (p.stdout.strip().splitlines() or ["ok"])[-1]
+    os.remove(scen)
 
 
 def miri(res):
